@@ -22,6 +22,7 @@ import (
 	"github.com/datastax/go-cassandra-native-protocol/message"
 	"github.com/datastax/go-cassandra-native-protocol/primitive"
 	"github.com/datastax/go-cassandra-native-protocol/segment"
+	xsnappy "github.com/golang/snappy"
 	"verif/simrt"
 )
 
@@ -82,6 +83,18 @@ type c04Target struct {
 	name   string
 	valid  []byte
 	decode func(b []byte, chunk, errAt int)
+	snappy bool // the encoding embeds a Snappy block: pre-screen its declared length (vendored code, no guard)
+}
+
+// snappyHuge reports whether an (altered) buffer contains a Snappy block header declaring more than the
+// allocation limit. The vendored snappy package allocates the declared size (up to 4 GiB) up front and is
+// outside the instrumenter's allocation guard, so such inputs are skipped and counted, like guarded ones.
+func snappyHuge(b []byte, bodyOffset int) bool {
+	if bodyOffset > len(b) {
+		return false
+	}
+	n, err := xsnappy.DecodedLen(b[bodyOffset:])
+	return err == nil && int64(n) > simrt.AllocLimit
 }
 
 func rd(b []byte, chunk, errAt int) io.Reader { return &faultReader{data: b, chunk: chunk, errAt: errAt} }
@@ -110,14 +123,22 @@ func c04Targets(T *Tape) []c04Target {
 			continue
 		}
 		wire := append([]byte(nil), buf.Bytes()...)
+		first := len(ts)
+		defer func(first int) {
+			if comp == primitive.CompressionSnappy {
+				for i := first; i < len(ts) && i < first+4; i++ {
+					ts[i].snappy = true
+				}
+			}
+		}(first)
 		ts = append(ts,
-			c04Target{"DecodeFrame" + tag + "/" + kind, wire, func(b []byte, c, e int) { _, _ = codec.DecodeFrame(rd(b, c, e)) }},
-			c04Target{"DecodeRawFrame+Convert" + tag + "/" + kind, wire, func(b []byte, c, e int) {
+			c04Target{name: "DecodeFrame" + tag + "/" + kind, valid: wire, decode: func(b []byte, c, e int) { _, _ = codec.DecodeFrame(rd(b, c, e)) }},
+			c04Target{name: "DecodeRawFrame+Convert" + tag + "/" + kind, valid: wire, decode: func(b []byte, c, e int) {
 				if raw, err := codec.DecodeRawFrame(rd(b, c, e)); err == nil {
 					_, _ = codec.ConvertFromRawFrame(raw)
 				}
 			}},
-			c04Target{"DecodeHeader+DecodeRawBody/DiscardBody" + tag, wire, func(b []byte, c, e int) {
+			c04Target{name: "DecodeHeader+DecodeRawBody/DiscardBody" + tag, valid: wire, decode: func(b []byte, c, e int) {
 				src := rd(b, c, e)
 				if h, err := codec.DecodeHeader(src); err == nil {
 					if h.StreamId%2 == 0 {
@@ -127,7 +148,7 @@ func c04Targets(T *Tape) []c04Target {
 					}
 				}
 			}},
-			c04Target{"DecodeHeader+DiscardBody(seekable)" + tag, wire, func(b []byte, c, e int) {
+			c04Target{name: "DecodeHeader+DiscardBody(seekable)" + tag, valid: wire, decode: func(b []byte, c, e int) {
 				src := bytes.NewReader(b)
 				if h, err := codec.DecodeHeader(src); err == nil {
 					_ = codec.DiscardBody(h, src)
@@ -137,7 +158,7 @@ func c04Targets(T *Tape) []c04Target {
 		var body bytes.Buffer
 		mc := c03MsgCodecs[f.Body.Message.GetOpCode()]
 		if mc != nil && mc.Encode(f.Body.Message, &body, v) == nil {
-			ts = append(ts, c04Target{"message.Decode/" + kind + fmt.Sprintf("/%v", v), append([]byte(nil), body.Bytes()...), func(b []byte, c, e int) { _, _ = mc.Decode(rd(b, c, e), v) }})
+			ts = append(ts, c04Target{name: "message.Decode/" + kind + fmt.Sprintf("/%v", v), valid: append([]byte(nil), body.Bytes()...), decode: func(b []byte, c, e int) { _, _ = mc.Decode(rd(b, c, e), v) }})
 		}
 		// column types of RESULT metadata through ReadDataType
 		var cols []*message.ColumnMetadata
@@ -157,7 +178,7 @@ func c04Targets(T *Tape) []c04Target {
 			}
 			var db bytes.Buffer
 			if datatype.WriteDataType(col.Type, &db, v) == nil {
-				ts = append(ts, c04Target{fmt.Sprintf("ReadDataType/%v", v), append([]byte(nil), db.Bytes()...), func(b []byte, c, e int) { _, _ = datatype.ReadDataType(rd(b, c, e), v) }})
+				ts = append(ts, c04Target{name: fmt.Sprintf("ReadDataType/%v", v), valid: append([]byte(nil), db.Bytes()...), decode: func(b []byte, c, e int) { _, _ = datatype.ReadDataType(rd(b, c, e), v) }})
 			}
 		}
 	}
@@ -166,7 +187,7 @@ func c04Targets(T *Tape) []c04Target {
 		dt := newGen(T, GenOpts{Version: v}).dtype("c04.dtype", 0)
 		var db bytes.Buffer
 		if dt != nil && datatype.WriteDataType(dt, &db, v) == nil {
-			ts = append(ts, c04Target{fmt.Sprintf("ReadDataType/%v", v), append([]byte(nil), db.Bytes()...), func(b []byte, c, e int) { _, _ = datatype.ReadDataType(rd(b, c, e), v) }})
+			ts = append(ts, c04Target{name: fmt.Sprintf("ReadDataType/%v", v), valid: append([]byte(nil), db.Bytes()...), decode: func(b []byte, c, e int) { _, _ = datatype.ReadDataType(rd(b, c, e), v) }})
 		}
 	}
 	// 2. segments
@@ -177,7 +198,7 @@ func c04Targets(T *Tape) []c04Target {
 			continue
 		}
 		sc := c07Codec(lz)
-		ts = append(ts, c04Target{fmt.Sprintf("DecodeSegment/lz4=%v", lz), seg.wire, func(b []byte, c, e int) { _, _ = sc.DecodeSegment(rd(b, c, e)) }})
+		ts = append(ts, c04Target{name: fmt.Sprintf("DecodeSegment/lz4=%v", lz), valid: seg.wire, decode: func(b []byte, c, e int) { _, _ = sc.DecodeSegment(rd(b, c, e)) }})
 	}
 	// 3. decompressors, both formats
 	{
@@ -187,15 +208,15 @@ func c04Targets(T *Tape) []c04Target {
 		_ = lz4.Compressor{}.Compress(bytes.NewReader(data), &b2)
 		_ = snappy.Compressor{}.CompressWithLength(bytes.NewReader(data), &c3)
 		ts = append(ts,
-			c04Target{"lz4.DecompressWithLength", append([]byte(nil), a.Bytes()...), func(b []byte, c, e int) {
+			c04Target{name: "lz4.DecompressWithLength", valid: append([]byte(nil), a.Bytes()...), decode: func(b []byte, c, e int) {
 				var out bytes.Buffer
 				_ = lz4.Compressor{}.DecompressWithLength(rd(b, c, e), &out)
 			}},
-			c04Target{"lz4.Decompress", append([]byte(nil), b2.Bytes()...), func(b []byte, c, e int) {
+			c04Target{name: "lz4.Decompress", valid: append([]byte(nil), b2.Bytes()...), decode: func(b []byte, c, e int) {
 				var out bytes.Buffer
 				_ = lz4.Compressor{}.Decompress(rd(b, c, e), &out)
 			}},
-			c04Target{"snappy.DecompressWithLength", append([]byte(nil), c3.Bytes()...), func(b []byte, c, e int) {
+			c04Target{name: "snappy.DecompressWithLength", snappy: true, valid: append([]byte(nil), c3.Bytes()...), decode: func(b []byte, c, e int) {
 				var out bytes.Buffer
 				_ = snappy.Compressor{}.DecompressWithLength(rd(b, c, e), &out)
 			}},
@@ -213,7 +234,7 @@ func c04Primitives(T *Tape, v primitive.ProtocolVersion) []c04Target {
 	add := func(name string, write func(w io.Writer) error, read func(r io.Reader)) {
 		var buf bytes.Buffer
 		if write(&buf) == nil {
-			ts = append(ts, c04Target{"primitive." + name, append([]byte(nil), buf.Bytes()...), func(b []byte, c, e int) { read(rd(b, c, e)) }})
+			ts = append(ts, c04Target{name: "primitive." + name, valid: append([]byte(nil), buf.Bytes()...), decode: func(b []byte, c, e int) { read(rd(b, c, e)) }})
 		}
 	}
 	s := fmt.Sprintf("k%d", T.Draw("pval", 1000))
@@ -269,7 +290,7 @@ func c04Values(T *Tape, v primitive.ProtocolVersion) []c04Target {
 		}
 		for i, mk := range dests {
 			mk := mk
-			ts = append(ts, c04Target{fmt.Sprintf("datacodec.%s/dest%d/%v", name, i, v), enc, func(b []byte, _, _ int) { _, _ = c.Decode(b, mk(), v) }})
+			ts = append(ts, c04Target{name: fmt.Sprintf("datacodec.%s/dest%d/%v", name, i, v), valid: enc, decode: func(b []byte, _, _ int) { _, _ = c.Decode(b, mk(), v) }})
 		}
 	}
 	iface := func() interface{} { var x interface{}; return &x }
@@ -473,7 +494,16 @@ func c04Try(t *c04Target, m c04Mut) (panicked string, class string) {
 			class = fmt.Sprintf("panic:%s@%s", normalizePanic(val), simrt.InnermostRepoFunc(string(buf[:n])))
 		}
 	}()
-	t.decode(m.apply(t.valid), m.Chunk, m.ErrAt)
+	alt := m.apply(t.valid)
+	if t.snappy {
+		// frame targets: the Snappy block starts right after the frame header (8 or 9 bytes)
+		for _, off := range []int{0, 8, 9} {
+			if snappyHuge(alt, off) {
+				return "", "huge-alloc"
+			}
+		}
+	}
+	t.decode(alt, m.Chunk, m.ErrAt)
 	return "", ""
 }
 
@@ -555,7 +585,7 @@ func c04Case(w *Worker, i int) {
 		}
 		t := &targets[ti]
 		plan := c04Plan(len(t.valid), i+ti, huge, next)
-		fails, evals := c04Battery(ti, t, plan, 10*time.Second)
+		fails, evals := c04Battery(ti, t, plan, 20*time.Second)
 		w.Out.Counters["direct_evaluations"] += evals
 		w.Out.Counters["direct_huge_allocations_refused_by_guard_not_judged"] += int(hugeAllocs.Swap(0))
 		w.Out.Counters["direct_targets"]++
@@ -564,6 +594,14 @@ func c04Case(w *Worker, i int) {
 			w.Out.Counters["direct_targets_enumerated"]++
 		}
 		for _, f := range fails {
+			if len(f.what) >= 4 && f.what[:4] == "hang" {
+				// a real-time watchdog can fire under load: confirm alone with a much longer budget
+				again, _ := c04Battery(ti, t, []c04Mut{f.mut}, 120*time.Second)
+				if len(again) == 0 {
+					w.Out.Counters["slow_decode_suspected_hang_not_confirmed"]++
+					continue
+				}
+			}
 			// re-derive through the normal run path (confirmation by replay, replay file, class key)
 			w.Exec(RunSpec{Scenario: "one", Index: i, Params: map[string]int{"target": f.target, "kind": f.mut.Kind, "off": f.mut.Off, "val": f.mut.Val, "n": f.mut.N, "chunk": f.mut.Chunk, "errat": f.mut.ErrAt}})
 		}
@@ -586,7 +624,7 @@ func c04One(r *Run) {
 	r.Config["entry_point"] = t.name
 	r.Config["alteration"] = m.String()
 	r.Config["valid_len"] = fmt.Sprint(len(t.valid))
-	fails, _ := c04Battery(ti, t, []c04Mut{m}, 10*time.Second)
+	fails, _ := c04Battery(ti, t, []c04Mut{m}, 120*time.Second)
 	r.Nontrivial = true
 	for _, f := range fails {
 		oracle := "no-panic"
